@@ -32,6 +32,9 @@ def family(rp):
     f.add("None-into-class", cls + "def x: A := None", "reject")
     f.add("None-into-class?", cls + "def x: A? := None", "accept")
     f.add("class-into-class?", cls + "def x: A? := A()", "accept")
+    opt = lambda verdict, out: verdict == "accept" and "Optional[int]" in out and "Union" not in out
+    f.add("union-value-then-None", "def a := if True then 10 else None\n", opt, annotate=True)
+    f.add("union-None-then-value", "def a := if True then None else 10\n", opt, annotate=True)
     f.add("Int?-into-Float", "def y: Int? := 5\ndef x: Float := y", "reject")
     f.add("Int?-into-Float?", "def y: Int? := 5\ndef x: Float? := y", "accept")
     f.add("Int-into-Float?", "def x: Float? := 5", "accept")
@@ -212,7 +215,7 @@ def ob_union(run, mir, rp, fam):
     cl.append(disj([conj(p.cond) for p in ends]))
     e2.prove(run, ob, ex, [], conj(cl), {"self.is_interchangeable": ia, "other.is_interchangeable": ib,
                                          "any_member_is_None": any_null, "member_count": ln},
-             fam.as_replay("union:"))
+             fam.as_replay("union:", only=["union-", "None-into", "default-"]))
 
 
 def run(run):
